@@ -143,9 +143,11 @@ func init() {
 			fixedCases(c, spellingCases(), both)
 			fixedCases(c, boundaryCases(), oracleC11)
 			fixedCases(c, hugeCases(), both)
+			fixedCases(c, dynCallBranchCases(c.Thorough()), both)
+			fixedCases(c, fullStackCallCases(), oracleC11)
 		},
 		Level: "exploration",
-		Rule: "the bytecode (hook: code bytes, constant pool, deferred-argument bodies) of every program the compiler emits for: random programs with user strict / lazy functions, accepted mutants, size families (40..1100 members / nesting, 254..256 arguments, branches > 255 bytes), constant-pad families (0..600 constants before each intrinsic so operand bytes take every opcode value), nested lazy calls to depth 3, and tree-built programs with 65 534..70 000 members / constants and conditionals spanning > 64 KiB; " +
+		Rule: "the bytecode (hook: code bytes, constant pool, deferred-argument bodies) of every program the compiler emits for: random programs with user strict / lazy functions, accepted mutants, size families (40..1100 members / nesting, 254..256 arguments, branches > 255 bytes), constant-pad families (0..600 constants before each intrinsic so operand bytes take every opcode value), nested lazy calls to depth 3, dynamic calls with 40..70 (thorough: 1..120) arguments inside a branch padded by 0..130 (200) additions, host / dynamic calls made with exactly 20..1044 operands live, and tree-built programs with 65 534..70 000 members / constants and conditionals spanning > 64 KiB; " +
 			"monitor = independent instruction-set description + abstract interpreter: complete decode, known opcodes, in-range operands of the right dynamic kind, argument counts, deferred bodies verified recursively, every jump forward to an instruction boundary, equal stack depth on all paths, never negative, exactly 1 at the final return, no unreachable or trailing code; constpad / huge cases are also executed and compared with the closure back end. distinct = distinct source or case id",
 		Assume:    []string{"the instruction-set description in bridge/bytecode.go is the specification; opcode numbering is taken from the hook's name table"},
 		MinEvents: 3000, EventKey: "programs_verified", Stall: 0,
